@@ -149,6 +149,10 @@ def _programs() -> list[tuple]:
     out.append(([O_['MetaVar'], 0, 0, 0, 1, 3, 0, 1, 5], [O_['MetaVar'], 1, 1, 2, 0, 0, 0, 0], [O_['CleanMetaVar'], 1, O_['MetaVar'], 0, 0, 1, 4, 0, 0, 2, 6, 7]))
     out.append(([], [], [O_['SVar'], 1, O_['Mu'], 1, O_['Quantifier'], O_['Instantiate'], 1, 0, O_['SVar'], 1, O_['EVar'], 0, O_['App'], O_['Mu'], 1, O_['SVar'], 1, O_['CleanMetaVar'], 0, O_['ESubst'], 0, O_['Instantiate'], 1, 0]))
     out.append(([], [], [O_['EVar'], 1, O_['Quantifier'], O_['Instantiate'], 1, 0, O_['Prop1'], O_['Generalization'], 3]))
+    # the same claim twice: the claim list is a stack, every entry needs its own proof-phase Publish
+    out.append(([O_['Symbol'], 0, O_['Publish']], [O_['Symbol'], 0, O_['Publish'], O_['Symbol'], 0, O_['Publish']], [O_['Load'], 0, O_['Publish'], O_['Load'], 0, O_['Publish']]))
+    # mu over a pending element substitution: the body's polarity depends on the plug being s_fresh
+    out.append(([], [], [O_['MetaVar'], 1, 0, 1, 0, 0, 0, 0, O_['MetaVar'], 0, 0, 0, 1, 0, 0, 0, O_['ESubst'], 1, O_['Mu'], 0]))
     return out
 
 
